@@ -236,6 +236,66 @@ impl Prop for Triples {
         if let Ok(Ok((_, hms, nano))) = r2 {
             ensure_eq!("c01.from_ymd_time_nonzero", "DateTime::from_ymd time of day", ((0, 0, 0), 0), (hms, nano));
         }
+        // a refused call leaves nothing behind: values that existed before it read as before, and
+        // the valid constructions around it (same year and a month used just before in the
+        // neighbouring year; the day the refused triple would "overflow" to) come out right
+        if !valid && (cal::MIN_YMD.0 + 2..=cal::MAX_YMD.0 - 2).contains(&y) {
+            let h = (y as u64).wrapping_mul(0x9E37_79B9_7F4A_7C15) ^ ((m as u64) << 7) ^ d as u64;
+            let mm = 1 + ((h >> 20) % 12) as u32;
+            let dd = 1 + ((h >> 30) % 28) as u32;
+            let step = |yy: i64, by: i64| {
+                let a = cal::astro_from_display(if yy == 0 { 1 } else { yy }) + by;
+                cal::display_from_astro(a)
+            };
+            let y_other = step(y, if (h >> 40) & 1 == 0 { -1 } else { 1 });
+            let y_here = if y == 0 { 1 } else { y };
+            let over: Option<i64> = if (1..=12).contains(&m) && y != 0 && d <= 40 {
+                Some(cal::days_from_ymd(y, m, 1) + d as i64 - 1)
+            } else if m == 0 && d <= 40 {
+                Some(cal::days_from_ymd(step(y, -1), 12, 1) + d.max(1) as i64 - 1)
+            } else if m == 13 && d <= 40 {
+                Some(cal::days_from_ymd(step(y, 1), 1, 1) + d.max(1) as i64 - 1)
+            } else {
+                None
+            };
+            let use_dt = (h >> 41) & 1 == 1;
+            let r = catch(|| {
+                let before = Date::from_ymd(y_other as i32, mm, dd).map(|v| rd_date(&v));
+                let held = over.map(|o| (Date::from_timestamp((o - cal::DAYS_TO_1970) * 86_400), DateTime::from_timestamp((o - cal::DAYS_TO_1970) * 86_400 + 1)));
+                let refused = if use_dt { DateTime::from_ymd(c.y, m, d).is_err() } else { Date::from_ymd(c.y, m, d).is_err() };
+                let held_read = held.map(|(a, b)| (a.as_ymd(), b.as_ymd(), (a.year(), a.month(), a.day()), format!("{}", a.format("yyyy-MM-dd"))));
+                let after = Date::from_ymd(y_here as i32, mm, dd).map(|v| (rd_date(&v), v.as_ymd()));
+                let after_dt = DateTime::from_ymd(y_here as i32, mm, dd).map(|v| (v.timestamp().div_euclid(86_400) + cal::DAYS_TO_1970, v.as_ymd()));
+                (before, refused, held_read, after, after_dt)
+            });
+            match r {
+                Err(p) => return fail("c01.from_ymd_panic", format!("constructions around the refused from_ymd({},{},{}) return", y, m, d), p.short()),
+                Ok((before, refused, held_read, after, after_dt)) => {
+                    cx.nt("valid_constructions_and_reads_around_a_refused_call");
+                    let what = format!(
+                        "from_ymd({},{},{}) [Ok], {}::from_ymd({},{},{}) [refused], then",
+                        y_other, mm, dd, if use_dt { "DateTime" } else { "Date" }, y, m, d
+                    );
+                    ensure_eq!("c01.refused_call_leaves_a_trace", format!("{} (the second call is refused)", what), true, refused);
+                    ensure_eq!("c01.from_ymd_wrong_day", format!("Date::from_ymd({},{},{})", y_other, mm, dd), Some(cal::days_from_ymd(y_other, mm, dd)), before.ok());
+                    let wd = cal::days_from_ymd(y_here, mm, dd);
+                    let wt = (y_here as i32, mm, dd);
+                    ensure_eq!("c01.refused_call_leaves_a_trace", format!("{} Date::from_ymd({},{},{}) = (day, as_ymd)", what, y_here, mm, dd), Some((wd, wt)), after.ok());
+                    ensure_eq!("c01.refused_call_leaves_a_trace", format!("{} DateTime::from_ymd({},{},{}) = (day, as_ymd)", what, y_here, mm, dd), Some((wd, wt)), after_dt.ok());
+                    if let (Some(o), Some((a, b, g, text))) = (over, held_read) {
+                        let w = cal::ymd_from_days(o);
+                        let wt = (w.0 as i32, w.1, w.2);
+                        let wtext = format!("{}-{:02}-{:02}", if w.0 < 0 { format!("-{:04}", -w.0) } else { format!("{:04}", w.0) }, w.1, w.2);
+                        ensure_eq!(
+                            "c01.refused_call_leaves_a_trace",
+                            format!("{} a value of day {} that existed before the refused call reads (Date.as_ymd, DateTime.as_ymd, getters, format)", what, fmt_day(o)),
+                            (wt, wt, wt, wtext),
+                            (a, b, g, text)
+                        );
+                    }
+                }
+            }
+        }
         Verdict::Pass
     }
 }
